@@ -14,7 +14,7 @@ META = {
     'assumptions': ['all sources of one run carry the same texture metadata (size/format) for a path; they differ in pixel bytes only'],
     'floors': {'pixels_swept': 131000, 'roundtrip_dir': 40, 'verbatim_anm': 40, 'orderings': 40, 'entries_compared': 300},
 }
-SIZES = {'quick': 400, 'thorough': 12000}
+SIZES = {'quick': 800, 'thorough': 12000}
 GAMES_OLD = ['th06', 'th07', 'th08', 'th09', 'th095', 'th10']
 GAMES_NEW = ['th11', 'th12', 'th125', 'th13', 'th14', 'th16', 'th17', 'th18']
 
